@@ -274,6 +274,12 @@ inline std::vector<djinterop::beatgrid_marker> gen_beatgrid(Rng& r, int size,
     size_t n = (k == 5) ? 2 + r.below(60) : 2 + r.below(3);
     if (k == 6 && size >= 3 && f.big)
         n = 700 + r.below(300);  // crosses the 16 KiB zlib chunk
+    if (k == 8 && size >= 2 && f.big && r.chance(1, 4))
+    {
+        // the marker-count boundary of the 1.x format and the top of the statement's range
+        static const size_t edge[] = {32767, 32768, 32768, 32769, 40000};
+        n = edge[r.below(5)];
+    }
     int idx = (int)r.range(-8, 4);
     double off = (double)r.range(-50000, 50000) + (r.chance(1, 2) ? 0.25 : 0);
     for (size_t i = 0; i < n; ++i)
